@@ -94,7 +94,7 @@ func nativeJWT(name string, wellFormed bool, nonceKind int, nonce string, aud []
 	if err != nil {
 		panic(err)
 	}
-	return Secret(string(signed), 16)
+	return SecretExact(string(signed), 16)
 }
 
 func init() {
